@@ -58,6 +58,23 @@ def render(case):
         if len(set(m)) == len(m):
             val = "1.5" if len(m) == 1 else f"float{len(m)}(" + ", ".join(f"{j + 1}.5" for j in range(len(m))) + ")"
             out.append(("write", f"export function f(float{n} v) -> float{n}\n{{\n  v.{m} = {val};\n  return v;\n}}\n"))
+    elif k == "big":
+        n = case["hi"] * 2 ** 32 + case["lo"]
+        if case["neg"]:
+            n = -(n - 2 * case["lo"]) if case["lo"] else -n          # -(hi * 2^32 - lo): the low 32 bits are lo again
+        lit = str(n)
+        if case["on"] == "arr":
+            out.append(("read", f"export function f(int a) -> int\n{{\n  int[3] t;\n  return t[{lit}];\n}}\n"))
+            out.append(("write", f"export function f(int a) -> int\n{{\n  int[3] t;\n  t[{lit}] = a;\n  return a;\n}}\n"))
+        elif case["on"] == "arr2":
+            out.append(("read", f"export function f(int a) -> int\n{{\n  int[2][3] t;\n  return t[1][{lit}];\n}}\n"))
+            out.append(("read-first", f"export function f(int a) -> int\n{{\n  int[2][3] t;\n  return t[{lit}][1];\n}}\n"))
+        elif case["on"] == "vec":
+            out.append(("read", f"export function f(int4 v) -> int\n{{\n  return v[{lit}];\n}}\n"))
+        elif case["on"] == "matrow":
+            out.append(("read", f"export function f(float3x3 m) -> float\n{{\n  return m[{lit}][0];\n}}\n"))
+        else:
+            out.append(("read", f"export function f(float3x3 m) -> float\n{{\n  return m[0][{lit}];\n}}\n"))
     elif k == "comp":
         def atom(a):
             if a["s"] == "arrc":
@@ -66,9 +83,11 @@ def render(case):
                 return "t[" + {"int-var": "i", "float-var": "x", "float-literal": "1.0"}[a["it"]] + "]"
             if a["s"] == "mask":
                 return "iv." + "".join(a["m"]) + (".x" if len(a["m"]) > 1 else "")
+            if a["s"] == "mask4":
+                return "iv4." + "".join(a["m"])
             return f"iv[{a['c']}]"
         s1, s2 = atom(case["a"]), atom(case["b"])
-        sig = "int[3] t, int2 iv, int i, float x, float3[4] a, float3x3 m"
+        sig = "int[3] t, int2 iv, int i, float x, float3[4] a, float3x3 m, int4 iv4"
         head = f"export function f({sig}) -> float\n{{\n"
         if case["rel"] == "seq":
             out.append(("seq", head + f"  int r = {s1};\n  return r + {s2};\n}}\n"))
@@ -85,6 +104,8 @@ def render(case):
 
 def detail(case):
     k = case["kind"]
+    if k == "big":
+        return f"big:{case['on']}:{'neg' if case['neg'] else 'pos'}"
     if k == "comp":
         def tag(a):
             return a["s"] + ":" + str(a.get("c", a.get("it", "".join(a.get("m", [])))))
@@ -156,7 +177,7 @@ def run(ctx, args):
         ctx, level="model_checking", evaluations=evals, distinct_nontrivial=invalid,
         rule=f"TLC enumerates {len(cases)} cases ({kinds}): 39 array shapes x constant -1..4 at every dimension (other indices 0 or extent-1), vector sizes 2-4 and "
              f"float3x3/float4x4 x constants -1..5, 7 index-expression kinds x 3 containers, all masks of length <= {mm} over xyzw/rgba/q/s on vectors of size 2-4; "
-             "576 compositions of two selections (12 atoms x 12 atoms x {two statements, two functions, index of a member-selected element, inside index expressions}: accepted exactly if both are valid); "
+             "40 constants beyond 2^32 whose low 32 bits are a valid index; 784 compositions of two selections (14 atoms x 14 atoms x {two statements, two functions, index of a member-selected element, inside index expressions}: accepted exactly if both are valid); "
              "each case rendered in 1-4 contexts (local/global/parameter, read/write), compiled, accept/reject compared. distinct_nontrivial = cases the language rejects.",
         samples=samples, exhaustive=True, traces_validated=evals,
         assumptions=["rejection = Compile returns None or raises", "write contexts for masks only when no letter repeats (the statement does not speak about repeated write masks)",
